@@ -544,6 +544,35 @@ def correspondence(ctx):
                      drv.ask(4, 2, q(atol), "truncnorm", q(atol if eps is None else eps), qlist(p))))
         ctx.case(("truncnorm", tuple(p), eps), nontrivial=impl[0] == "ok")
 
+    # --- generate_mprocess(mode 1): spectral step (rows of the eigh matrix, grouping of equal eigenvalues) on real
+    #     symmetric POVM elements; `eigh` results are passed to the model as parameters
+    for kind in ("qubit", "qutrit"):
+        S = get_sys(kind)
+        d = S.d
+        for t in range(4 if ctx.quick else 25):
+            o, _ = np.linalg.qr(g.standard_normal((d, d)))
+            lam = np.sort(g.uniform(0.05, 0.95, size=d))
+            if t % 4 == 3:
+                lam = np.round(lam * 4) / 4 + 0.125      # dyadic, repeated values likely
+            E = o @ np.diag(lam) @ o.T
+            E = (E + E.T) / 2
+            try:
+                P = Povm(S.c, [S.vec(E), S.vec(np.eye(d) - E)], is_physicality_required=False)
+                mats = P.matrices_with_sparsity()
+                back = P.generate_mprocess(1).to_povm()
+            except Exception as e:  # noqa
+                ctx.count("mode1 skipped (raises)")
+                continue
+            for x, mat in enumerate(mats):
+                w, v = np.linalg.eigh(np.array(mat))
+                if np.max(np.abs(v.imag)) > 0:
+                    ctx.count("mode1 skipped (complex eigenvectors)")
+                    continue
+                impl = list(S.mat(back.vecs[x]).real.flatten())
+                pend.append(("mode1", {"kind": kind, "t": t, "x": x}, impl,
+                             drv.ask(*hdr(S), "mode1", d, qlist(w), qlist(v.real.flatten()))))
+                ctx.case(("mode1", kind, t, x), sample={"op": "mode1", "system": kind})
+                ctx.count("mode1 spectral step")
     out = drv.run()
     for op, inp, impl, i in pend:
         ctx.corr_ops.add(op)
@@ -675,7 +704,18 @@ def oracle_tree(ctx, S, br, leaves, rep, seen):
     return obj, sem
 
 
+PARTIAL = [
+    {"theorem": "mprocess_state_partial", "missing": "outcomes with weight*p <= eps_zero (truncation/renormalisation branch): there the code divides post states by the renormalised probability (D13, witness truncated_post_state_fails)"},
+    {"theorem": "ensemble_step_partial", "missing": "same generic-regime restriction; zero-distribution branch not covered"},
+    {"theorem": "compose_assoc (full)", "missing": "false on the current tree for chains that compose MProcess with MProcess (D6, witnesses compose_assoc_fails / mpMp_order_fails); proved instead: instrument_bracketing for the corrected composition, coded_branches_eq_fixed, exact triples assoc_mprocess_gate_state / assoc_povm_gate_state / assoc_povm_mprocess_gate, forStates_gate_mul (TP gate), gate_chain_bracketing"},
+    {"theorem": "born_dist non-negativity", "missing": "PSD ⇒ ⟪Π,ρ⟫ ≥ 0 needs the basis bridge (C02); sum-to-one parts proved (born_sum_one, truncNorm_sum_one)"},
+    {"theorem": "generate_mprocess modes 0/1 round trip", "missing": "complex sqrtm/eigh pipeline not modelled; mode 2 proved (mode2_to_povm, mode2_to_povm_list), mode 1 spectral step modelled for real symmetric input with witness mode1_to_povm_fails (D4)"},
+    {"theorem": "compose_physical CP part", "missing": "complete positivity of compositions (Kraus products) not proved; TP/identity-sum parts proved (tp_comp_tp, povm_gate_identity_sum, povm_mprocess_identity_sum, mprocess_prob_sum_one)"},
+]
+
+
 def oracle(ctx, volume=1):
+    ctx.partial = PARTIAL
     g = ctx.npgen(2)
     for kind, length, family, t in chain_plan(ctx, volume):
         S = get_sys(kind)
